@@ -26,12 +26,24 @@
   preservation along the excursion comes from `Avt.Terminal.execute_ok` (Avt/Lemmas/InvTerminal.lean)
   with `Avt.resizeOK`.
 
-  Not proved here: the resized-excursion clause (`C16_resized_full`) — it is the statement of C10 about
-  the deferred `Buffer.resize`, applied with the old-geometry cursor; kept as a `def … : Prop`.
+  Resized excursions (the last sentence of the property), proved at the end of the file:
+  * `C16_resized`        the leaving step from ANY excursion state (alternate showing, invariant, parked
+                         buffer = the marked primary, any current size): invariant afterwards, primary
+                         showing at the current size, logical lines kept or cut short at the bottom
+                         (`Spec.C10.keptOrCut`), `textRel` for `text()`, and C10's whole `resizeRel`
+                         w.r.t. the cursor fed to the deferred `Buffer.resize` (`leaveCursor`);
+  * `C16_resized_full_holds`  the statement kept as `def C16_resized_full` since round one;
+  * `C16_resized_1049`   `?1049l`: same logical line, same character as the entry cursor; pen, origin
+                         mode, auto-wrap mode of the mark;
+  * `C16_excursion_resized`  enter, any list of functions (no leave / RIS) and `Terminal::resize` calls,
+                         leave: parked primary and `text()` constant throughout + all of the above.
+  For `?47l`/`?1047l` the cursor fed to the deferred resize is the alternate screen's (current
+  geometry), so "same character" is claimed for 1049 only, as the property does.
 -/
 import Avt.Lemmas.C16Text
 import Avt.Lemmas.ResizeSame
 import Avt.Lemmas.InvTerminal
+import Avt.Lemmas.C16Resized
 
 namespace Avt.Props.C16
 open Avt Avt.Spec.C16 Avt.C16
@@ -259,9 +271,10 @@ theorem C16_1049_mixed {m t0 t1 t2 : Terminal} {me : DecMode} {fs : List Functio
 
 theorem C16_textOf (t : Terminal) : textOf t = t.text := textOf_eq t
 
-/-! ### resized excursions (statement only — rests on C10) -/
+/-! ### resized excursions: the statement of round one (proved below, `C16_resized_full_holds`) -/
 
-/-- **C16_resized_full** (not proved here).  If the terminal was resized while the alternate screen
+/-- **C16_resized_full** (proved at the end of this file: `C16_resized_full_holds`; the sharper
+    clauses are `C16_resized`, `C16_resized_1049`, `C16_excursion_resized`).  If the terminal was resized while the alternate screen
     was showing, then on return the invariant holds, the primary's logical text is that of the mark up
     to what the shrinking cut off at the end (`textRel`, before the `gc()` of the leaving call hands
     out scrollback lines), and the API-level geometry is consistent.  This is the statement of C10
@@ -301,5 +314,258 @@ example : exM.execute (.decset [.saveCursorAltScreenBuffer]) = some exT0
     ∧ exT1.buffer.view ≠ exT0.buffer.view
     ∧ sameBuffer exT2.buffer exM.buffer = true ∧ exT2.cursor.col = 3 ∧ exT2.cursor.row = 1
     ∧ exT2.text = exM.text ∧ exT2.pen.intensity = .bold := by decide +kernel
+
+/-! ### resized excursions — proved
+
+  During the excursion the parked primary and its saved context are untouched (`C16_frame`,
+  `C16_frame_resize`).  Leaving is ONE `Buffer.resize` of the parked buffer from its old geometry to
+  the terminal's current one (`Avt.C16.leave_resize`), fed with `leaveCursor`: for `?1049l` the parked
+  saved cursor (old geometry), for `?47l`/`?1047l` the alternate screen's cursor.  C10's theorems about
+  `Buffer.resize` (`Lemmas.resize_lines`, `Lemmas.width_rel`, `Lemmas.rows_only_rel`, packaged as
+  `Avt.C16.buffer_resize_rel`) then give the relation between the logical lines, and
+  `Terminal.execute_ok` (C02) gives the invariant.                                                  -/
+
+/-- the cursor's logical position (line index, offset) of a terminal, as in C10 -/
+def cursorOf (t : Terminal) : Nat × Nat :=
+  Spec.C10.cursorLogical t.buffer (t.cursor.col, t.cursor.row)
+
+/-- **C16_resized** (the leaving step, any geometry).  `t1` is any state of an excursion: the
+    alternate screen is showing, the invariant holds, the parked buffer is the marked primary
+    `m.buffer` — the terminal may have been resized any number of times since the mark.  After
+    `DECRST 47/1047/1049`:
+    * the invariant holds again (all geometry invariants), the primary is showing at the terminal's
+      current size;
+    * the primary's logical lines are the marked ones, re-wrapped: each kept, or the last one cut
+      short, followed at most by blank filler (`keptOrCut` — none altered, reordered or invented);
+      hence `textRel` for `text()`;
+    * if the row of the cursor fed to the deferred resize lies inside the parked screen (always for
+      `?1049l`, see `C16_resized_1049`), the whole relation of C10 holds w.r.t. that cursor: same
+      logical line, lines above unchanged, text before it intact, same character under it, later
+      lines kept or cut short (`resizeRel`). -/
+theorem C16_resized {m t1 t2 : Terminal} {ml : DecMode}
+    (hinv : TInv t1 = true) (ha : t1.activeBufferType = .alternate)
+    (hpark : t1.otherBuffer = m.buffer) (hml : isAltScreenMode ml = true)
+    (h : t1.execute (.decrst [ml]) = some t2) :
+    TInv t2 = true ∧ t2.activeBufferType = .primary ∧ t2.cols = t1.cols ∧ t2.rows = t1.rows
+      ∧ Spec.C10.keptOrCut (Spec.C10.logicalLines m.buffer.lines)
+          (Spec.C10.logicalLines t2.buffer.lines) = true
+      ∧ textRel m.buffer.text t2.text = true
+      ∧ ((leaveCursor t1 ml).2 < m.buffer.rows →
+          Spec.C10.resizeRel (Spec.C10.logicalLines m.buffer.lines)
+            (Spec.C10.logicalLines t2.buffer.lines)
+            (Spec.C10.cursorLogical m.buffer (leaveCursor t1 ml)).1
+            (Spec.C10.cursorLogical m.buffer (leaveCursor t1 ml)).2
+            (cursorOf t2).1 (cursorOf t2).2 (leavePending t1 ml) = true) := by
+  have hok := TOK.of_TInv hinv
+  obtain ⟨t2', ht2', hok2⟩ := Terminal.execute_ok resizeOK (.decrst [ml]) hok
+  rw [h] at ht2'; cases ht2'
+  have h' := h
+  rw [exec_decrst_one] at h'
+  obtain ⟨cur', hres, hcc, hcr, hprim, hcols, hrows, _⟩ := leave_resize ha hml h'
+  rw [hpark] at hres
+  have hbm : BInv m.buffer = true := by rw [← hpark]; exact hok.ook.BInv
+  have hkc := Lemmas.resize_lines hres
+  refine ⟨hok2.TInv, hprim, hcols, hrows, hkc, ?_, ?_⟩
+  · rw [text_prim hprim, buffer_text_eq_logical hbm, buffer_text_eq_logical hok2.bok.BInv]
+    exact textRel_of_keptOrCut _ _ hkc
+  · intro hrow
+    have hcur' : cursorOf t2 = Spec.C10.cursorLogical t2.buffer cur' := by
+      simp only [cursorOf, hcc, hcr]
+    rw [hcur']
+    refine buffer_resize_rel (leavePending t1 ml) hbm hok.c1 hok.r1 hrow ?_ hres
+    intro hsame
+    -- same width: the column fed to the resize is inside the parked screen (or wrap-pending)
+    have hbc : m.buffer.cols = t1.cols := hsame.symm
+    unfold leaveCursor leavePending
+    split
+    · rcases hok.actx with hx | hx
+      · rw [ha] at hx; cases hx
+      · rw [hpark] at hx
+        exact ⟨Nat.le_of_lt hx.1, fun _ => hx.1⟩
+    · rw [hbc]
+      rcases hok.ccol with ⟨hp, hc⟩ | ⟨hp, hc⟩
+      · exact ⟨by rw [hc]; exact Nat.le_refl _, fun hf => by rw [hp] at hf; cases hf⟩
+      · exact ⟨Nat.le_of_lt hc, fun _ => hc⟩
+
+/-- **The statement kept since the first round (`C16_resized_full`) holds.** -/
+theorem C16_resized_full_holds : C16_resized_full := by
+  intro m t1 t2 ml _ hp _ ha hpark hml h
+  have hinv1 : TInv t1 = true := by assumption
+  obtain ⟨a1, a2, a3, a4, _, a6, _⟩ := C16_resized hinv1 ha hpark hml h
+  obtain ⟨hbc, hbr, _⟩ := tinv_parts a1
+  refine ⟨a1, a2, hbc.trans a3, hbr.trans a4, ?_⟩
+  rw [text_prim hp]; exact a6
+
+/-- **C16_resized_1049.**  `?1049l` after an excursion whose parked context is the cursor saved by
+    `?1049h` at the mark `m` (column clamped to `cols-1`), whatever resizes happened in between: the
+    cursor is back in the same logical line of the primary's text, every line above it unchanged,
+    the text before it intact, ON THE SAME CHARACTER when it was on one (`resizeRel` with the entry
+    cursor, no wrap pending), later lines kept or cut short; pen, origin mode and auto-wrap mode are
+    those of the mark and no wrap is pending. -/
+theorem C16_resized_1049 {m t1 t2 : Terminal}
+    (hinvm : TInv m = true) (hinv : TInv t1 = true) (ha : t1.activeBufferType = .alternate)
+    (hpark : t1.otherBuffer = m.buffer) (hctx : t1.alternateSavedCtx = entryCtx m)
+    (h : t1.execute (.decrst [.saveCursorAltScreenBuffer]) = some t2) :
+    Spec.C10.resizeRel (Spec.C10.logicalLines m.buffer.lines) (Spec.C10.logicalLines t2.buffer.lines)
+        (Spec.C10.cursorLogical m.buffer (min m.cursor.col (m.cols - 1), m.cursor.row)).1
+        (Spec.C10.cursorLogical m.buffer (min m.cursor.col (m.cols - 1), m.cursor.row)).2
+        (cursorOf t2).1 (cursorOf t2).2 false = true
+      ∧ t2.pen = m.pen ∧ t2.originMode = m.originMode ∧ t2.autoWrapMode = m.autoWrapMode
+      ∧ t2.pendingWrap = false := by
+  obtain ⟨_, _, _, _, _, _, hrel⟩ := C16_resized (m := m) hinv ha hpark rfl h
+  obtain ⟨_, hbr, _, _, hrow, _, _⟩ := tinv_parts hinvm
+  have hlc : leaveCursor t1 .saveCursorAltScreenBuffer
+      = (min m.cursor.col (m.cols - 1), m.cursor.row) := by
+    simp [leaveCursor, hctx, entryCtx]
+  have hlp : leavePending t1 .saveCursorAltScreenBuffer = false := by simp [leavePending]
+  rw [hlc, hlp] at hrel
+  refine ⟨hrel (by rw [hbr]; exact hrow), ?_⟩
+  rw [exec_decrst_one] at h
+  obtain ⟨p1, p2, p3, p4⟩ := leave_1049_ctx ha h
+  rw [hctx] at p1 p2 p3
+  exact ⟨p1, p2, p3, p4⟩
+
+/-! ### whole excursions with resizes in between -/
+
+/-- one step of an excursion at the terminal level: a control function, or `Terminal::resize` -/
+inductive ExOp where
+  | fn (f : Function)
+  | resize (c r : Nat)
+  deriving DecidableEq, Repr
+
+/-- allowed during an excursion: any function that neither leaves the alternate screen nor is RIS;
+    any resize within the API contract (`cols, rows ≥ 1`) -/
+def ExOp.ok : ExOp → Prop
+  | .fn f => endsExcursion f = false
+  | .resize c r => 1 ≤ c ∧ 1 ≤ r
+
+instance : DecidablePred ExOp.ok := fun op => by
+  cases op <;> simp only [ExOp.ok] <;> exact inferInstance
+
+def exStep (t : Terminal) : ExOp → Option Terminal
+  | .fn f => t.execute f
+  | .resize c r => t.resize c r
+
+/-- what holds at every point of an excursion entered from `m` with mode `me`, resizes allowed -/
+structure DuringR (m : Terminal) (me : DecMode) (t : Terminal) : Prop where
+  inv : TInv t = true
+  alt : t.activeBufferType = .alternate
+  parked : t.otherBuffer = m.buffer
+  ctx : t.alternateSavedCtx = parkedCtx m (me == .saveCursorAltScreenBuffer)
+
+theorem DuringR.text {m t : Terminal} {me : DecMode} (hp : m.activeBufferType = .primary)
+    (hd : DuringR m me t) : t.text = m.text := by
+  rw [text_alt hd.alt, text_prim hp, hd.parked]
+
+theorem duringR_enter {m t : Terminal} {me : DecMode} (hinv : TInv m = true)
+    (hp : m.activeBufferType = .primary) (hme : isAltScreenMode me = true)
+    (h : m.execute (.decset [me]) = some t) : DuringR m me t :=
+  let hd := during_enter hinv hp hme h
+  ⟨hd.inv, hd.alt, hd.parked, hd.ctx⟩
+
+theorem duringR_step {m t t' : Terminal} {me : DecMode} {op : ExOp} (hd : DuringR m me t)
+    (hop : op.ok) (h : exStep t op = some t') : DuringR m me t' := by
+  cases op with
+  | fn f =>
+    simp only [exStep] at h
+    obtain ⟨h1, h2, h3⟩ := C16_frame hd.alt hop h
+    obtain ⟨t'', ht'', hok⟩ := Terminal.execute_ok resizeOK f (TOK.of_TInv hd.inv)
+    rw [h] at ht''; cases ht''
+    exact ⟨hok.TInv, h3, h1.trans hd.parked, h2.trans hd.ctx⟩
+  | resize c r =>
+    simp only [exStep] at h
+    obtain ⟨h1, h2, h3⟩ := C16_frame_resize h
+    obtain ⟨t'', ht'', hok⟩ := Terminal.resize_ok resizeOK (TOK.of_TInv hd.inv) hop.1 hop.2
+    rw [h] at ht''; cases ht''
+    exact ⟨hok.TInv, h3.trans hd.alt, h1.trans hd.parked, h2.trans hd.ctx⟩
+
+theorem duringR_all {m t0 t1 : Terminal} {me : DecMode} {ops : List ExOp} (hd : DuringR m me t0)
+    (hops : ∀ op ∈ ops, op.ok) (h : Terminal.foldM' exStep ops t0 = some t1) : DuringR m me t1 :=
+  foldM'_inv (f := exStep) (DuringR m me) (ms := ops)
+    (fun _ op _ hmem hb hs => duringR_step hb (hops op hmem) hs) hd h
+
+/-- **C16_excursion_resized.**  Enter (`?47/1047/1049h`) from any state `m` of the primary screen;
+    then any list of control functions (none leaving, none RIS) and terminal resizes (wider,
+    narrower, taller, shorter, interleaved in any order); leave (`?47/1047/1049l`, any of the three).
+    Throughout, the parked primary and its saved context are untouched and `text()` is constant; on
+    return the invariant holds, the primary shows at the final size, its logical lines are those of
+    `m` re-wrapped — none altered, at most cut short at the bottom (`keptOrCut`, `textRel`) — and when
+    both the entry and the exit are 1049 the cursor is back on the same character of the primary's
+    text (C10's `resizeRel` for the entry cursor) with the pen and modes of the mark. -/
+theorem C16_excursion_resized {m t0 t1 t2 : Terminal} {me ml : DecMode} {ops : List ExOp}
+    (hinv : TInv m = true) (hp : m.activeBufferType = .primary)
+    (hme : isAltScreenMode me = true) (hml : isAltScreenMode ml = true)
+    (h0 : m.execute (.decset [me]) = some t0)
+    (hops : ∀ op ∈ ops, op.ok)
+    (h1 : Terminal.foldM' exStep ops t0 = some t1)
+    (h2 : t1.execute (.decrst [ml]) = some t2) :
+    (t1.otherBuffer = m.buffer ∧ t1.text = m.text)
+      ∧ TInv t2 = true ∧ t2.activeBufferType = .primary ∧ t2.cols = t1.cols ∧ t2.rows = t1.rows
+      ∧ Spec.C10.keptOrCut (Spec.C10.logicalLines m.buffer.lines)
+          (Spec.C10.logicalLines t2.buffer.lines) = true
+      ∧ textRel m.text t2.text = true
+      ∧ (me = .saveCursorAltScreenBuffer → ml = .saveCursorAltScreenBuffer →
+          Spec.C10.resizeRel (Spec.C10.logicalLines m.buffer.lines)
+              (Spec.C10.logicalLines t2.buffer.lines)
+              (Spec.C10.cursorLogical m.buffer (min m.cursor.col (m.cols - 1), m.cursor.row)).1
+              (Spec.C10.cursorLogical m.buffer (min m.cursor.col (m.cols - 1), m.cursor.row)).2
+              (cursorOf t2).1 (cursorOf t2).2 false = true
+            ∧ t2.pen = m.pen ∧ t2.originMode = m.originMode ∧ t2.autoWrapMode = m.autoWrapMode
+            ∧ t2.pendingWrap = false) := by
+  have hd := duringR_all (duringR_enter hinv hp hme h0) hops h1
+  obtain ⟨a1, a2, a3, a4, a5, a6, _⟩ := C16_resized hd.inv hd.alt hd.parked hml h2
+  refine ⟨⟨hd.parked, hd.text hp⟩, a1, a2, a3, a4, a5, ?_, ?_⟩
+  · rw [text_prim hp]; exact a6
+  · intro e1 e2
+    subst e1 e2
+    have hctx : t1.alternateSavedCtx = entryCtx m := by
+      rw [hd.ctx]; simp [parkedCtx]
+    exact C16_resized_1049 hinv hd.inv hd.alt hd.parked hctx h2
+
+/-! ### a concrete excursion with resizes
+
+  `exM2`: 4×2, limit 10, rows "z" / "" (scrollback) and "abcd"⏎"ef" (one logical line wrapped over the
+  two visible rows), bold pen, cursor moved back onto the 'f' (logical line 2, offset 5).
+  `?1049h`, print, resize to 3×3, scroll, print, resize to 2×2, DECALN, `?1049l` at 2×2: the parked
+  primary kept its 4×2 rows all along; on return "abcdef" occupies three rows of width 2, `text()` is
+  unchanged, the cursor is on the 'f' again, the pen is bold again. -/
+
+def exM2 : Terminal :=
+  let t := (Terminal.new 4 2 (some 10)).getD default
+  let t := (Terminal.foldM' Terminal.execute
+    [.print 0x7a, .lf, .cr, .lf, .cr, .print 0x61, .print 0x62, .print 0x63, .print 0x64, .print 0x65,
+     .print 0x66, .sgr [.setBold], .cub 1] t).getD default
+  (Spec.finishT t)
+
+def exOpsR : List ExOp :=
+  [.fn (.print 0x78), .resize 3 3, .fn .lf, .fn .lf, .fn .lf, .fn (.print 0x79), .resize 2 2, .fn .decaln]
+
+def exR0 : Terminal := (exM2.execute (.decset [.saveCursorAltScreenBuffer])).getD default
+def exR1 : Terminal := (Terminal.foldM' exStep exOpsR exR0).getD default
+def exR2 : Terminal := (exR1.execute (.decrst [.saveCursorAltScreenBuffer])).getD default
+
+example : (∀ op ∈ exOpsR, op.ok) := by decide
+
+/-- the hypotheses of `C16_excursion_resized` hold on this excursion … -/
+example : TInv exM2 = true ∧ exM2.activeBufferType = .primary ∧ exM2.buffer.sb.length = 2
+    ∧ (exM2.cursor.col, exM2.cursor.row) = (1, 1)
+    ∧ exM2.execute (.decset [.saveCursorAltScreenBuffer]) = some exR0
+    ∧ Terminal.foldM' exStep exOpsR exR0 = some exR1
+    ∧ exR1.execute (.decrst [.saveCursorAltScreenBuffer]) = some exR2 := by decide +kernel
+
+/-- … and this is what its conclusion says there -/
+example : (exR1.cols, exR1.rows) = (2, 2) ∧ exR1.otherBuffer = exM2.buffer ∧ exR1.otherBuffer.cols = 4
+    ∧ (exR2.cols, exR2.rows, exR2.buffer.cols, exR2.buffer.rows) = (2, 2, 2, 2)
+    ∧ exR2.activeBufferType = .primary
+    ∧ exR2.buffer.lines.map (fun l => (l.cells.map Cell.ch, l.wrapped))
+        = [([0x7a, 0x20], false), ([0x20, 0x20], false), ([0x61, 0x62], true), ([0x63, 0x64], true),
+           ([0x65, 0x66], false)]
+    ∧ exR2.text = exM2.text
+    ∧ Spec.C10.cursorLogical exM2.buffer (1, 1) = (2, 5) ∧ cursorOf exR2 = (2, 5)
+    ∧ Spec.C10.onChar (Spec.C10.logicalLines exM2.buffer.lines) 2 5 false = true
+    ∧ (exR2.cursor.col, exR2.cursor.row) = (1, 1)
+    ∧ Spec.C10.resizeRel (Spec.C10.logicalLines exM2.buffer.lines) (Spec.C10.logicalLines exR2.buffer.lines)
+        2 5 (cursorOf exR2).1 (cursorOf exR2).2 false = true
+    ∧ exR2.pen.intensity = .bold ∧ exR2.pendingWrap = false := by decide +kernel
 
 end Avt.Props.C16
